@@ -7,6 +7,7 @@ import (
 	"context"
 	"encoding/base64"
 	"encoding/json"
+	"errors"
 	"fmt"
 	"io"
 	"net/http"
@@ -42,8 +43,11 @@ type Script struct {
 	// LocMode: LocationsForDescriptor option: "" unset | "empty" (returns no locations) | "one" | "error"
 	// RotateIDs: the backend hands out a new upload id with every writer (as a proxying backend does
 	// whose upstream registry puts state into the upload location)
-	RotateIDs bool `json:"rotate_ids,omitempty"`
-	LocMode string `json:"loc_mode,omitempty"`
+	RotateIDs bool   `json:"rotate_ids,omitempty"`
+	LocMode   string `json:"loc_mode,omitempty"`
+
+	// ReadFault > 0: every reader the backend hands out fails after delivering ReadFault-1 bytes
+	ReadFault int `json:"read_fault,omitempty"`
 
 	Method   string            `json:"method"`
 	Path     string            `json:"path"`
@@ -168,6 +172,52 @@ func (r *rotating) PushBlobChunkedResume(ctx context.Context, repo, id string, o
 	return r.wrap(r.Interface.PushBlobChunkedResume(ctx, repo, baseID(id), offset, chunkSize))
 }
 
+// breaking makes the backend's readers fail in mid-stream.
+type breaking struct {
+	ociregistry.Interface
+	after     int
+	delivered []byte
+	fired     bool
+}
+
+type breakingReader struct {
+	ociregistry.BlobReader
+	b *breaking
+}
+
+func (r *breakingReader) Read(p []byte) (int, error) {
+	left := r.b.after - len(r.b.delivered)
+	if left <= 0 {
+		r.b.fired = true
+		return 0, errors.New("the storage behind the registry failed in mid-stream")
+	}
+	if len(p) > left {
+		p = p[:left]
+	}
+	n, err := r.BlobReader.Read(p)
+	r.b.delivered = append(r.b.delivered, p[:n]...)
+	return n, err
+}
+
+func (b *breaking) wrap(r ociregistry.BlobReader, err error) (ociregistry.BlobReader, error) {
+	if err != nil {
+		return r, err
+	}
+	return &breakingReader{BlobReader: r, b: b}, nil
+}
+func (b *breaking) GetBlob(ctx context.Context, repo string, d ociregistry.Digest) (ociregistry.BlobReader, error) {
+	return b.wrap(b.Interface.GetBlob(ctx, repo, d))
+}
+func (b *breaking) GetBlobRange(ctx context.Context, repo string, d ociregistry.Digest, o0, o1 int64) (ociregistry.BlobReader, error) {
+	return b.wrap(b.Interface.GetBlobRange(ctx, repo, d, o0, o1))
+}
+func (b *breaking) GetManifest(ctx context.Context, repo string, d ociregistry.Digest) (ociregistry.BlobReader, error) {
+	return b.wrap(b.Interface.GetManifest(ctx, repo, d))
+}
+func (b *breaking) GetTag(ctx context.Context, repo string, tag string) (ociregistry.BlobReader, error) {
+	return b.wrap(b.Interface.GetTag(ctx, repo, tag))
+}
+
 var linkRe = regexp.MustCompile(`^<[^<>]+>;\s*rel="next"$`)
 
 func run(s Script, v *vt.V) {
@@ -180,6 +230,10 @@ func run(s Script, v *vt.V) {
 	rot := &rotating{Interface: mem}
 	if s.RotateIDs {
 		inner = rot
+	}
+	brk := &breaking{Interface: inner, after: s.ReadFault - 1}
+	if s.ReadFault > 0 {
+		inner = brk
 	}
 	r := rec.New(inner)
 	opts := &ociserver.Options{
@@ -265,6 +319,18 @@ func run(s Script, v *vt.V) {
 	for _, wr := range r.Writers() {
 		if !wr.Released() {
 			v.Failf("writer-not-closed", "%s: the writer obtained by %s was never closed (ops %v)", desc, wr.Method, wr.Ops)
+			return
+		}
+	}
+	if brk.fired {
+		// the content broke off in mid-stream: whatever status went out, the body is either an error
+		// document or exactly the bytes the backend delivered - never content with something appended
+		v.Class("read-fault-fired/status=%d", status)
+		if status < 400 && !bytes.Equal(respBody, brk.delivered) {
+			v.Failf("body-after-read-fault", "%s: the backend's reader failed after delivering %d bytes (%q); the response has status %d and the %d-byte body %.300q", desc, len(brk.delivered), brk.delivered, status, len(respBody), respBody)
+			return
+		}
+		if status < 400 {
 			return
 		}
 	}
@@ -471,6 +537,9 @@ func genScript(t *rapid.T) Script {
 	s.NoSinglePost, s.NoReferrers = rapid.IntRange(0, 3).Draw(t, "noSinglePost") == 0, rapid.IntRange(0, 5).Draw(t, "noReferrers") == 0
 	s.MaxPage = rapid.SampledFrom([]int{0, 0, 1, 2, 1000}).Draw(t, "maxPage")
 	s.RotateIDs = rapid.IntRange(0, 3).Draw(t, "rotateIDs") == 0
+	if rapid.IntRange(0, 7).Draw(t, "readFault") == 0 {
+		s.ReadFault = rapid.IntRange(1, 20).Draw(t, "readFaultAt")
+	}
 	s.LocMode = rapid.SampledFrom([]string{"", "", "", "empty", "one", "error"}).Draw(t, "locMode")
 	s.Method = rapid.SampledFrom([]string{"GET", "GET", "GET", "HEAD", "PUT", "POST", "PATCH", "DELETE", "OPTIONS", "", "get", "CONNECT", "G E T"}).Draw(t, "method")
 	repo := func() string {
@@ -617,7 +686,7 @@ func genScript(t *rapid.T) Script {
 var prop = &vt.Prop[Script]{
 	ID:   "C06",
 	Name: "ServeAnyRequest",
-	Rule: "requests built by hand (so that unparseable paths are reachable) and served in-process by ociserver over a recording, close-tracking wrapper of a pre-populated ocimem (3 repositories incl. a/blobs/uploads, blobs, image + index manifests with subject, tags, an upload in progress) under every Options combination, a quarter of the time with a backend that rotates upload ids: method in {GET,HEAD,PUT,POST,PATCH,DELETE,OPTIONS,'',lower case,garbage}; path = one of 8 endpoint templates with slots from known / valid (routing words, 255-1000 byte names) / hostile names, digests, tags and upload ids (incl. ids whose base64 form needs the URL-safe alphabet), then mutated (segment dropped / duplicated / emptied, trailing slash, double slash, other prefix); query n,last,digest,mount,from each absent / empty / valid / malformed / repeated, raw malformed queries; Range, Content-Range, Content-Type headers from valid and boundary values (0-0, 5-4, 1-0, MaxInt64, negative, non-numeric, lone '-' and ',' forms, generated strings over the range alphabet); bodies (empty, 1 byte, blob, valid image / index manifests, truncated JSON) with matching, unknown (-1) and mismatching Content-Length; oracle = no panic; status >= 400 => OCI JSON error document whose status equals the specification's for its code; 2xx => the endpoint's mandated headers (Location - for uploads naming the id the backend's writer reports now -, Docker-Content-Digest, Range, Content-Range consistent with the body, Content-Length == body); no backend call with a repository, tag or digest that an independent reference reading of the grammars rejects; every reader and writer obtained from the backend closed; non-trivial = the request reached a handler or was rejected for a reason other than a foreign path; distinct = (method, template, mutation, status, header set, query)",
+	Rule: "requests built by hand (so that unparseable paths are reachable) and served in-process by ociserver over a recording, close-tracking wrapper of a pre-populated ocimem (3 repositories incl. a/blobs/uploads, blobs, image + index manifests with subject, tags, an upload in progress; an eighth of the backends hand out readers that fail after 0-19 bytes: the response is then an error document or exactly the bytes delivered, never content with something appended) under every Options combination, a quarter of the time with a backend that rotates upload ids: method in {GET,HEAD,PUT,POST,PATCH,DELETE,OPTIONS,'',lower case,garbage}; path = one of 8 endpoint templates with slots from known / valid (routing words, 255-1000 byte names) / hostile names, digests, tags and upload ids (incl. ids whose base64 form needs the URL-safe alphabet), then mutated (segment dropped / duplicated / emptied, trailing slash, double slash, other prefix); query n,last,digest,mount,from each absent / empty / valid / malformed / repeated, raw malformed queries; Range, Content-Range, Content-Type headers from valid and boundary values (0-0, 5-4, 1-0, MaxInt64, negative, non-numeric, lone '-' and ',' forms, generated strings over the range alphabet); bodies (empty, 1 byte, blob, valid image / index manifests, truncated JSON) with matching, unknown (-1) and mismatching Content-Length; oracle = no panic; status >= 400 => OCI JSON error document whose status equals the specification's for its code; 2xx => the endpoint's mandated headers (Location - for uploads naming the id the backend's writer reports now -, Docker-Content-Digest, Range, Content-Range consistent with the body, Content-Length == body); no backend call with a repository, tag or digest that an independent reference reading of the grammars rejects; every reader and writer obtained from the backend closed; non-trivial = the request reached a handler or was rejected for a reason other than a foreign path; distinct = (method, template, mutation, status, header set, query)",
 	Gen:  genScript,
 	Run:  run,
 }
